@@ -34,11 +34,15 @@ def run(S):
     mathargs.report(S, 'C03', f5)
     validate_corpus(S, 'mathargs-idempotence', f5, lambda: mathargs.confirm_fixed_point(S, None))
     # two passes of the real printer over call arguments / arrays with comments and symbolic line breaks (nothing opaque)
+    G4 = [(), ('sp',), ('blk',), ('sp', 'blk')]
+    A3 = [' ', '\n', '\n\n\n\n']
+    ALL = ('call', 'array', 'dict', 'params', 'destruct')
     if S.tier == 'quick':
-        f6 = twopass.explore(S, max_items=1, constructs=('call',), gaps=[(), ('sp',), ('blk',), ('sp', 'blk')], ws_alts=[' ', '\n', '\n\n\n\n'])
+        f6 = twopass.explore(S, max_items=1, constructs=ALL, gaps=G4, ws_alts=A3, max_spaces=2)
+        f6 += twopass.explore(S, max_items=2, constructs=('call',), gaps=[(), ('sp',)], ws_alts=A3, min_items=2)
     else:
-        f6 = twopass.explore(S, max_items=1, constructs=('call', 'array'))
-        f6 += twopass.explore(S, max_items=2, constructs=('call',), gaps=[(), ('sp',), ('blk',)], ws_alts=[' ', '\n', '\n\n\n\n'])
+        f6 = twopass.explore(S, max_items=1, constructs=ALL, max_spaces=4)
+        f6 += twopass.explore(S, max_items=2, constructs=ALL, gaps=[(), ('sp',), ('blk',)], ws_alts=A3, max_spaces=4, min_items=2)
     twopass.report(S, 'C03', f6)
     # with reordering on, the chosen order must not depend on spacing that formatting normalises
     f4 = c19.explore_spacing(S, 2 if S.tier == 'quick' else 3)
